@@ -102,7 +102,8 @@ Record route := { ro_node : node; ro_mid : mid }.
 
 Record config := {
   cfg_self : node;          (* s.nodeID *)
-  cfg_crossnode : bool }.   (* tunnelConnMgr != nil || crossNodePool != nil *)
+  cfg_crossnode : bool;     (* tunnelConnMgr != nil || crossNodePool != nil *)
+  cfg_routing : bool }.     (* tunnelRouting != nil *)
 
 Inductive outcome :=
 | Refuse (failure_ack : bool)   (* error returned; failure_ack = a TunnelOpenAck{Success:false} was written first *)
@@ -111,7 +112,10 @@ Inductive outcome :=
 | NewBridge                     (* startSourceBridge: a new bridge with the requester as source; success ack *)
 | Forward                       (* forwardToSourceNode: success ack, dedicated connection to the tunnel's node, io.Copy both ways *)
 | WaitLocal                     (* handleLocalBridgeWait: routing says the bridge is on THIS node; SetTargetConnection once it appears *)
-| AckNoAttach.                  (* success ack, but no bridge anywhere to attach to (handleTargetBridge fails afterwards) *)
+| AckNoAttach                   (* success ack, but no bridge anywhere to attach to (handleTargetBridge fails afterwards) *)
+| Parked.                       (* success ack, then handleTargetBridge -> handleCrossNodeTargetConnection -> lookupTunnelRouting
+                                   POLLS the routing table (up to 10 s) for the tunnel id: the request waits for a tunnel
+                                   that does not exist yet; resolved later by [EResolve] *)
 
 (* handleExistingBridge: extractClientID(stream) = 0 on a stream transport, so "source" only if the mapping's listen id is 0 *)
 Definition existing (d : db) (r : request) : outcome :=
@@ -131,7 +135,7 @@ Definition cross (v : variant) (cfg : config) (ro : route) (r : request) : outco
   else Forward.
 
 (* after validation, no bridge here and no routing entry: success ack, then source / target handling *)
-Definition fresh (d : db) (c : conn_id) (r : request) : outcome :=
+Definition fresh (cfg : config) (d : db) (c : conn_id) (r : request) : outcome :=
   let is_source :=
     if N.eqb (r_mid r) 0 then false
     else match get_mapping d (r_mid r) with
@@ -143,7 +147,8 @@ Definition fresh (d : db) (c : conn_id) (r : request) : outcome :=
     | Some _ => NewBridge
     | None => AckNoAttach
     end
-  else AckNoAttach.                           (* handleTargetBridge: no bridge, cross-node lookup finds nothing *)
+  else if cfg_routing cfg && cfg_crossnode cfg then Parked   (* handleTargetBridge: no bridge here; poll the routing table *)
+  else AckNoAttach.                           (* routing table or cross-node transport not configured: error after the ack *)
 
 (* handleTunnelOpen *)
 Definition open (v : variant) (cfg : config) (d : db) (tun : tid -> option bridge) (rt : tid -> option route)
@@ -156,7 +161,7 @@ Definition open (v : variant) (cfg : config) (d : db) (tun : tid -> option bridg
          | None =>
              match rt (r_tid r) with
              | Some ro => if N.eqb (ro_mid ro) (r_mid r) then cross v cfg ro r else Refuse true
-             | None => fresh d c r
+             | None => fresh cfg d c r
              end
          end
   else
@@ -168,13 +173,13 @@ Definition open (v : variant) (cfg : config) (d : db) (tun : tid -> option bridg
         | None =>
             if negb (c_registered c) then Refuse true
             else if negb (validate v d (c_client c) r) then Refuse true
-            else fresh d c r
+            else fresh cfg d c r
         end
     end.
 
 Definition attaches (o : outcome) : bool :=
   match o with
-  | AttachSource | AttachTarget | NewBridge | Forward | WaitLocal => true
+  | AttachSource | AttachTarget | NewBridge | Forward | WaitLocal | Parked => true
   | Refuse _ | AckNoAttach => false
   end.
 
@@ -208,22 +213,34 @@ Definition tunnel_mid (tun : tid -> option bridge) (rt : tid -> option route) (r
 (* ------------------------------------------------------------------------------------------------
    Histories: the session manager's tunnel state under arbitrary sequences of events.
    ------------------------------------------------------------------------------------------------ *)
-Record sys := {
+Record sys := mkSys {
   s_db : db;
   s_tun : tid -> option bridge;
   s_rt : tid -> option route;
   s_fwd : list (connref * tid);            (* cross-node forwards (or local waits) in progress: requester, tunnel *)
-  s_log : list (connref * tid * bool) }.   (* ghost: every attachment ever made, with "was entitled at that moment" *)
+  s_log : list (connref * tid * bool);     (* ghost: every attachment ever made, with "was entitled at that moment" *)
+  s_park : list (connref * request * bool) }. (* requests polling the routing table (Parked), with "was entitled on arrival" *)
 
 Inductive event :=
 | EOpen (cr : connref) (c : conn_id) (r : request)   (* a TunnelOpen packet on connection cr, whose registry state is c *)
 | ESetMapping (m : mid) (x : option mapping)         (* any change of the mapping store: create / update / revoke / expire / delete *)
 | ESetRoute (t : tid) (x : option route)             (* another node registers / removes a waiting tunnel *)
 | ECloseBridge (t : tid)                             (* bridge lifecycle ends: removed from tunnelBridges *)
-| EEndForward (cr : connref) (t : tid).              (* a cross-node forward finishes *)
+| EEndForward (cr : connref) (t : tid)               (* a cross-node forward finishes *)
+| EResolve (cr : connref)                            (* the routing poll of the parked request of connection cr fires *)
+| ETimeout (cr : connref).                           (* ... or gives up (10 s) *)
 
 Definition upd {A} (f : N -> option A) (k : N) (x : option A) : N -> option A :=
   fun k' => if N.eqb k' k then x else f k'.
+
+(* startSourceBridge registers the new tunnel in the routing table (when one is configured); runBridgeLifecycle removes it *)
+Definition rt_register (cfg : config) (rt : tid -> option route) (t : tid) (m : mid) : tid -> option route :=
+  if cfg_routing cfg then upd rt t (Some {| ro_node := cfg_self cfg; ro_mid := m |}) else rt.
+Definition rt_remove (cfg : config) (rt : tid -> option route) (t : tid) : tid -> option route :=
+  if cfg_routing cfg then upd rt t None else rt.
+
+Definition parked_of (cr : connref) (p : connref * request * bool) : bool := N.eqb (fst (fst p)) cr.
+Definition unpark (cr : connref) (l : list (connref * request * bool)) := filter (fun p => negb (parked_of cr p)) l.
 
 Definition step (v : variant) (cfg : config) (s : sys) (e : event) : sys :=
   match e with
@@ -234,39 +251,63 @@ Definition step (v : variant) (cfg : config) (s : sys) (e : event) : sys :=
       match o with
       | AttachSource =>
           match s_tun s t with
-          | Some b => {| s_db := s_db s; s_tun := upd (s_tun s) t (Some {| b_mid := b_mid b; b_src := Some cr; b_tgt := b_tgt b |});
-                         s_rt := s_rt s; s_fwd := s_fwd s; s_log := (cr, t, ok) :: s_log s |}
+          | Some b => mkSys (s_db s) (upd (s_tun s) t (Some {| b_mid := b_mid b; b_src := Some cr; b_tgt := b_tgt b |}))
+                            (s_rt s) (s_fwd s) ((cr, t, ok) :: s_log s) (s_park s)
           | None => s
           end
       | AttachTarget =>
           match s_tun s t with
-          | Some b => {| s_db := s_db s; s_tun := upd (s_tun s) t (Some {| b_mid := b_mid b; b_src := b_src b; b_tgt := Some cr |});
-                         s_rt := s_rt s; s_fwd := s_fwd s; s_log := (cr, t, ok) :: s_log s |}
+          | Some b => mkSys (s_db s) (upd (s_tun s) t (Some {| b_mid := b_mid b; b_src := b_src b; b_tgt := Some cr |}))
+                            (s_rt s) (s_fwd s) ((cr, t, ok) :: s_log s) (s_park s)
           | None => s
           end
       | NewBridge =>
-          {| s_db := s_db s; s_tun := upd (s_tun s) t (Some {| b_mid := r_mid r; b_src := Some cr; b_tgt := None |});
-             s_rt := s_rt s; s_fwd := s_fwd s; s_log := (cr, t, ok) :: s_log s |}
+          mkSys (s_db s) (upd (s_tun s) t (Some {| b_mid := r_mid r; b_src := Some cr; b_tgt := None |}))
+                (rt_register cfg (s_rt s) t (r_mid r)) (s_fwd s) ((cr, t, ok) :: s_log s) (s_park s)
       | Forward | WaitLocal =>
-          {| s_db := s_db s; s_tun := s_tun s; s_rt := s_rt s; s_fwd := (cr, t) :: s_fwd s; s_log := (cr, t, ok) :: s_log s |}
+          mkSys (s_db s) (s_tun s) (s_rt s) ((cr, t) :: s_fwd s) ((cr, t, ok) :: s_log s) (s_park s)
+      | Parked =>
+          mkSys (s_db s) (s_tun s) (s_rt s) (s_fwd s) (s_log s) (s_park s ++ [(cr, r, ok)])
       | Refuse _ | AckNoAttach => s
       end
-  | ESetMapping m x =>
-      {| s_db := upd (s_db s) m x; s_tun := s_tun s; s_rt := s_rt s; s_fwd := s_fwd s; s_log := s_log s |}
-  | ESetRoute t x =>
-      {| s_db := s_db s; s_tun := s_tun s; s_rt := upd (s_rt s) t x; s_fwd := s_fwd s; s_log := s_log s |}
-  | ECloseBridge t =>
-      {| s_db := s_db s; s_tun := upd (s_tun s) t None; s_rt := s_rt s; s_fwd := s_fwd s; s_log := s_log s |}
+  | ESetMapping m x => mkSys (upd (s_db s) m x) (s_tun s) (s_rt s) (s_fwd s) (s_log s) (s_park s)
+  | ESetRoute t x => mkSys (s_db s) (s_tun s) (upd (s_rt s) t x) (s_fwd s) (s_log s) (s_park s)
+  | ECloseBridge t => mkSys (s_db s) (upd (s_tun s) t None) (rt_remove cfg (s_rt s) t) (s_fwd s) (s_log s) (s_park s)
   | EEndForward cr t =>
-      {| s_db := s_db s; s_tun := s_tun s; s_rt := s_rt s;
-         s_fwd := filter (fun p => negb (N.eqb (fst p) cr && N.eqb (snd p) t)) (s_fwd s); s_log := s_log s |}
+      mkSys (s_db s) (s_tun s) (s_rt s) (filter (fun p => negb (N.eqb (fst p) cr && N.eqb (snd p) t)) (s_fwd s)) (s_log s) (s_park s)
+  | EResolve cr =>
+      (* lookupTunnelRouting finds a record -> processCrossNodeForward; credentials were checked on arrival only *)
+      match find (parked_of cr) (s_park s) with
+      | None => s
+      | Some (_, r, ok) =>
+          let t := r_tid r in
+          match s_rt s t with
+          | None => s                                   (* nothing yet: keeps polling *)
+          | Some ro =>
+              let ok' := ok && N.eqb (ro_mid ro) (r_mid r) in
+              match cross v cfg ro r with
+              | Forward => mkSys (s_db s) (s_tun s) (s_rt s) ((cr, t) :: s_fwd s) ((cr, t, ok') :: s_log s) (unpark cr (s_park s))
+              | WaitLocal =>                            (* handleLocalBridgeWait: SetTargetConnection on the local bridge *)
+                  match s_tun s t with
+                  | Some b => mkSys (s_db s) (upd (s_tun s) t (Some {| b_mid := b_mid b; b_src := b_src b; b_tgt := Some cr |}))
+                                    (s_rt s) (s_fwd s) ((cr, t, ok') :: s_log s) (unpark cr (s_park s))
+                  | None => mkSys (s_db s) (s_tun s) (s_rt s) (s_fwd s) (s_log s) (unpark cr (s_park s))
+                  end
+              | _ => mkSys (s_db s) (s_tun s) (s_rt s) (s_fwd s) (s_log s) (unpark cr (s_park s))
+              end
+          end
+      end
+  | ETimeout cr => mkSys (s_db s) (s_tun s) (s_rt s) (s_fwd s) (s_log s) (unpark cr (s_park s))
   end.
 
 Definition run (v : variant) (cfg : config) (s : sys) (es : list event) : sys := fold_left (step v cfg) es s.
 
 (* a fresh session manager: no bridges, no forwards; any mapping store, any routing table *)
 Definition init (d : db) (rt : tid -> option route) : sys :=
-  {| s_db := d; s_tun := fun _ => None; s_rt := rt; s_fwd := []; s_log := [] |}.
+  {| s_db := d; s_tun := fun _ => None; s_rt := rt; s_fwd := []; s_log := []; s_park := [] |}.
+
+(* connection cr has a request polling the routing table *)
+Definition parked (s : sys) (cr : connref) : Prop := exists r ok, In (cr, r, ok) (s_park s).
 
 (* connection cr receives tunnel traffic of tunnel t in state s *)
 Definition holds (s : sys) (cr : connref) (t : tid) : Prop :=
@@ -333,7 +374,8 @@ Definition cell_rt (c : cell) : tid -> option route :=
   | _ => fun _ => None
   end.
 Definition cell_cfg (c : cell) : config :=
-  {| cfg_self := 1; cfg_crossnode := match ce_tstate c with TRemote => true | _ => false end |}.
+  {| cfg_self := 1; cfg_crossnode := match ce_tstate c with TRemote => true | _ => false end;
+     cfg_routing := match ce_tstate c with TRemote => true | _ => false end |}.
 
 Definition cell_open (v : variant) (c : cell) : outcome :=
   open v (cell_cfg c) (cell_db c) (cell_tun c) (cell_rt c) (cell_conn c) (cell_req c).
